@@ -68,9 +68,9 @@ func scenRaceAPI(x *Ctx) {
 				return
 			}
 			nd := x.C.Node(t)
-			st := nd.Raft.Status()
+			st := nd.R().Status()
 			_ = st.State
-			cfg := nd.Raft.Configuration()
+			cfg := nd.R().Configuration()
 			_ = cfg.String()
 			time.Sleep(time.Duration(rr.Intn(300)) * time.Microsecond)
 		})
@@ -95,7 +95,7 @@ func scenRaceAPI(x *Ctx) {
 		case 2:
 			t := pickUp(rr)
 			if t != "" {
-				x.C.Node(t).Raft.Bootstrap(map[string]string{t: t})
+				x.C.Node(t).R().Bootstrap(map[string]string{t: t})
 			}
 		default:
 			time.Sleep(time.Duration(rr.Intn(20)) * time.Millisecond)
